@@ -72,3 +72,29 @@ package index
 //@   property C06
 //@   pure
 //@   ensures result.bm == bm && result.cx == cx && result.cacheRoot == cacheRoot && result.indexSchema == indexSchema
+
+// ---- write path of the cached vector indexes (properties C07, C08, C11) ----
+// The goroutine that applies a batch to the graph and the flat index takes the index's shared cache for WRITING
+// (readOnly == false) under the cache name derived from the bucket: only then is the cache recorded
+// in the transaction and scrapped when the batch fails. Assumed (listed): the transaction invariant
+// holds when the goroutine starts (it is established by NewTransaction and kept by With).
+//@ func (indexManager).getDrainFn$1$2
+//@   property C07 C08 C11
+//@   safety -overflow -nil
+//@   requires im.cx != nil && im.cx.manager != nil && unheld(im.cx.mu) && unheld(im.cx.manager.mu) && im.cx.writtenCaches != im.cx.manager.sharedCaches
+//@   requires forallv(k string, contains(im.cx.writtenCaches, k) ==> im.cx.writtenCaches[k] != nil && heldW(im.cx.writtenCaches[k].mu))
+//@   requires forallv(k string, contains(im.cx.manager.sharedCaches, k) ==> im.cx.manager.sharedCaches[k] != nil)
+//@   requires forallv(k string, contains(im.cx.manager.sharedCaches, k) && held(im.cx.manager.sharedCaches[k].mu) ==> contains(im.cx.writtenCaches, k))
+//@   before With requires arg1 == cacheName && !arg2
+//@   ensures ncalls(With) == 1
+
+//@ func (indexManager).getDrainFn$2$2
+//@   property C07 C08 C11
+//@   safety -overflow -nil
+//@   requires im.cx != nil && im.cx.manager != nil && unheld(im.cx.mu) && unheld(im.cx.manager.mu) && im.cx.writtenCaches != im.cx.manager.sharedCaches
+//@   requires forallv(k string, contains(im.cx.writtenCaches, k) ==> im.cx.writtenCaches[k] != nil && heldW(im.cx.writtenCaches[k].mu))
+//@   requires forallv(k string, contains(im.cx.manager.sharedCaches, k) ==> im.cx.manager.sharedCaches[k] != nil)
+//@   requires forallv(k string, contains(im.cx.manager.sharedCaches, k) && held(im.cx.manager.sharedCaches[k].mu) ==> contains(im.cx.writtenCaches, k))
+//@   before With requires arg1 == cacheName && !arg2
+//@   ensures ncalls(With) == 1
+
